@@ -110,6 +110,13 @@ func (e *Encoder) Encode(v any) error {
 	return nil
 }
 
+// Failed reports whether the injected failure has happened.
+func (e *Encoder) Failed() bool {
+	e.mu.Lock()
+	defer e.mu.Unlock()
+	return e.FailAt != 0 && e.n >= e.FailAt
+}
+
 func (e *Encoder) Take() [][]byte {
 	e.mu.Lock()
 	defer e.mu.Unlock()
